@@ -72,6 +72,15 @@ class C12(Check):
                 kind = rng.choice(["ok"] * 6 + ["lost", "dup", "delay", "dup_late", "dup_late"]) if rng.random() > 0.03 else "short"
                 frames.append({"kind": kind, "wkc": [rng.choice([1, 1, 1, 0, 2]) for _ in range(15)]})
             out.append({"rounds": rounds, "frames": frames})
+        import random
+        rng = random.Random(self.seed + 12)      # its own stream: the cases above stay what they were
+        for _ in range(6 if self.tier == "quick" else 60):
+            # many frames in flight at once: 17-30 requests submitted one per event-loop tick (each leaves in a frame of its own) while
+            # the bus holds back every answer
+            n = rng.randint(17, 30)
+            rnd = [{"id": k + 1, "len": rng.randint(0, 12), "cancel": None} for k in range(n)]
+            frames = [{"kind": rng.choice(["ok"] * 9 + ["lost"]), "wkc": [1] * 15} for _ in range(40)]
+            out.append({"rounds": [rnd], "frames": frames, "drip": True})
         return out
 
     def run_impl(self, case):
@@ -160,6 +169,9 @@ class C12(Check):
                         payload = raw
                     buffers[q["id"]] = payload
                     tasks[q["id"]] = asyncio.ensure_future(ec.roundtrip(ECCmd.FPRD, q["id"], 0x10, data=payload))
+                    if case.get("drip"):
+                        for _ in range(3):
+                            await asyncio.sleep(0)
                 await asyncio.sleep(0)
                 for q in rnd:
                     if q["cancel"] == "before":
@@ -234,8 +246,8 @@ class C12(Check):
 
     def model_term(self, case):
         o = case.get("_o")
-        if o is None or isinstance(o, Err):
-            return "(VZ 0)"
+        if o is None or isinstance(o, Err) or case.get("drip"):
+            return "(VZ 0)"      # (dripped requests: one frame each, outside the burst model of run_round - decided by the oracle)
         info = {q["id"]: q for rnd in case["rounds"] for q in rnd}
         parts = [f"(run_round {clist([self.crq(q) for q in rnd])})" for rnd in case["rounds"]]
         for ids, states, resp in o["frames"]:
@@ -246,7 +258,7 @@ class C12(Check):
         return "(VL " + clist(parts) + ")"
 
     def model_value(self, case, o):
-        if isinstance(o, Err):
+        if isinstance(o, Err) or case.get("drip"):
             return 0
         info = {q["id"]: q for rnd in case["rounds"] for q in rnd}
         vals = []
